@@ -226,29 +226,31 @@ inline CellResult check_cell(const std::vector<Trial>& tr, uint64_t n, double rs
   return R;
 }
 
-// High-resolution one-sided coverage (cells with thousands of cheap trials): the true count may lie above ub(kappa) /
-// below lb(kappa) no more often than the nominal one-sided miss rate 1 - Phi(kappa) plus ONE_SIDED_TOL[kappa] plus
-// 4 binomial standard errors (at the allowed rate).  Half of the two-sided 5pp would hide a 3-sigma bound that is
-// missed 20 times too often, so the tolerance shrinks with kappa: 5pp / 1pp / 0.5pp
-// (calibration on the unchanged tree: the 1-sigma ICON upper bound at lg_k 5 is missed 3pp more often than nominal).
-static const double ONE_SIDED_MISS[4] = {0, 0.158655253931457, 0.022750131948179, 0.001349898031630};
-static const double ONE_SIDED_TOL[4] = {0, 0.050, 0.010, 0.005};
-inline void check_one_sided(const std::vector<Trial>& tr, uint64_t n, const std::string& fam, const std::string& ctx) {
+// High-resolution interval coverage (cells with thousands of cheap trials).  The property promises that the reported
+// interval contains the true count at least as often as its nominal confidence, allowing a small stated tolerance.  With the
+// plain 5pp tolerance a 3-sigma interval could miss the truth 20 times too often unnoticed, so in these cells the stated
+// tolerance scales with kappa:
+//   P(truth outside [lb(kappa), ub(kappa)]) <= (1 - conf(kappa)) + HIRES_TOL[kappa] + 4 binomial s.e. (at the allowed rate)
+// with conf = 68.27 / 95.45 / 99.73 % and HIRES_TOL = 5pp / 1pp / 0.5pp.  The per-side miss rates are reported in the cell
+// record and the sample only (an asymmetric interval with correct total coverage is not a violation).
+static const double HIRES_TOL[4] = {0, 0.050, 0.010, 0.005};
+inline std::string check_interval_miss(const std::vector<Trial>& tr, uint64_t n, const std::string& fam, const std::string& ctx) {
   const double T = static_cast<double>(tr.size()), dn = static_cast<double>(n);
-  std::string rec = "CELL1S " + ctx + " T=" + std::to_string(tr.size());
+  std::string rec = ctx + " T=" + std::to_string(tr.size());
   for (int sd = 1; sd <= 3; ++sd) {
     uint64_t above = 0, below = 0;
-    for (auto& t : tr) { if (dn > t.c.ub[sd]) ++above; if (dn < t.c.lb[sd]) ++below; }
-    const double allowed0 = ONE_SIDED_MISS[sd] + ONE_SIDED_TOL[sd];
+    for (auto& t : tr) { if (dn > t.c.ub[sd]) ++above; else if (dn < t.c.lb[sd]) ++below; }
+    const double allowed0 = (1.0 - NOMINAL[sd]) + HIRES_TOL[sd];
     const double allowed = allowed0 + 4.0 * std::sqrt(allowed0 * (1.0 - allowed0) / T);
-    const double ra = static_cast<double>(above) / T, rb = static_cast<double>(below) / T;
-    const std::string d = ctx + " T=" + std::to_string(tr.size()) + " std_devs=" + std::to_string(sd) + " truth-above-ub rate=" + str(ra) + " truth-below-lb rate=" + str(rb) +
-      " nominal=" + str(ONE_SIDED_MISS[sd]) + " allowed=" + str(allowed);
-    VF_CHECK(ra <= allowed, fam + "|mc|upper-bound-below-truth-too-often-" + std::to_string(sd) + "sd", d);
-    VF_CHECK(rb <= allowed, fam + "|mc|lower-bound-above-truth-too-often-" + std::to_string(sd) + "sd", d);
-    rec += " sd" + std::to_string(sd) + ": above=" + str(ra) + " below=" + str(rb) + " allowed=" + str(allowed);
+    const double ra = static_cast<double>(above) / T, rb = static_cast<double>(below) / T, miss = ra + rb;
+    const double headroom_se = (allowed - miss) / std::sqrt(std::max(miss, 1.0 / T) * (1.0 - miss) / T);
+    const std::string d = " sd" + std::to_string(sd) + ": miss=" + str(miss) + " (truth above ub " + str(ra) + ", below lb " + str(rb) + ") nominal=" + str(1.0 - NOMINAL[sd]) +
+      " allowed=" + str(allowed) + " headroom_se=" + str(headroom_se);
+    VF_CHECK(miss <= allowed, fam + "|mc|interval-misses-truth-too-often-" + std::to_string(sd) + "sd", ctx + " T=" + std::to_string(tr.size()) + d);
+    rec += d;
   }
-  emit(std::string("{\"t\":\"cell\",\"d\":") + jstr(rec) + "}");
+  emit(std::string("{\"t\":\"cell\",\"d\":") + jstr("CELLHR " + rec) + "}");
+  return rec;
 }
 
 // cardinalities of the Monte-Carlo cells as multiples of k (num/den)
